@@ -4,6 +4,7 @@ import (
 	"fmt"
 	"go/token"
 	"go/types"
+	"regexp"
 	"sort"
 	"strings"
 
@@ -30,8 +31,6 @@ import (
 // two places the invoice's final CLTV is read from.
 const (
 	c05GetChain   = "func:(*swap.SwapData).GetChain"
-	c05Policy     = "func:(*swap.SwapData).getTimelockPolicy"
-	c05Services   = "func:(*swap.SwapServices).getOnChainServices"
 	c05CSVHeight  = "iface:swap.Validator.GetCSVHeight"
 	c05Script     = "func:onchain.ParamsToTxScript"
 	c05HeightTerm = "call:" + fxBlockHeight + "#0"
@@ -47,7 +46,7 @@ var c05FinalCLTVTerms = []string{"field:DecodedBolt11.MinFinalCltvExpiry", "lnrp
 func init() {
 	Register(&Prop{
 		ID:   "C05",
-		Expl: "Decides the worst case of the Bitcoin timelock arithmetic as a constant expression extracted from the guards of the pinned tree: (R1) CSV = the constant the taker's own validator puts into the opening script it accepts; the constant GetCSVHeight of every type wired as SwapServices.bitcoinValidator in the two mains; Fmax = the largest invoice final CLTV that passes the comparison dominating the confirmation-watch registration on the Bitcoin branch; Wmax = the largest now-start that passes the comparison dominating the claim-payment call on the Bitcoin branch, on the first and on every later attempt, with `now` read in the same attempt; R = per back-end, the constant added to the invoice's final CLTV in the CLTV value placed into the outgoing route/request on the unlimited (limit == 0, i.e. Bitcoin) path. (R2) Wmax + Fmax + R < CSV for every back-end — the latest block at which the HTLC can still be settled (start+Wmax+Fmax+R, taking the most favourable admissible confirmation height conf = start) is strictly below the first block in which a CSV refund can confirm (conf+CSV). The extracted constants are part of the construct, so any change of any of them is a different obligation.",
+		Expl: "Decides the worst case of the Bitcoin timelock arithmetic as a constant expression extracted from the guards of the pinned tree: (R1) CSV = the constant the taker's own validator puts into the opening script it accepts; the constant GetCSVHeight of every type wired as SwapServices.bitcoinValidator in the two mains; Fmax = the largest invoice final CLTV that passes the comparison dominating the confirmation-watch registration on the Bitcoin branch; Wmax = the largest now-start that passes the comparison dominating the claim-payment call on the Bitcoin branch, on the first and on every later attempt, with `now` read in the same attempt; R = per back-end, the constant added to the invoice's final CLTV in the CLTV value placed into the outgoing route/request on the unlimited (limit == 0, i.e. Bitcoin) path. (R2) Wmax + Fmax + R < CSV for every back-end — the latest block at which the HTLC can still be settled (start+Wmax+Fmax+R, taking the most favourable admissible confirmation height conf = start) is strictly below the first block in which a CSV refund can confirm (conf+CSV). The extracted constants are part of the construct, so any change of any of them is a different obligation. (R3) The anchor those windows are measured from is set once: in every action that a taker table runs in a state Recover re-executes (not FailOnrecover), every store to SwapData.StartingBlockHeight is dominated by StartingBlockHeight == 0 or is unreachable for a Bitcoin swap — otherwise each restart moves all Bitcoin windows forward while the maker's CSV keeps running from the confirmation. Predicate helpers (one bool result, one return) are instantiated with their arguments, payment / registration calls inside small helpers are judged at the helper's call site, constants are folded through + - * / % << >>.",
 		NotD: "Actual heights at run time; whether the opening transaction confirmed at or after StartingBlockHeight (no confirmation height ever reaches package swap, so R2 is evaluated for the most favourable case conf = start; an earlier confirmation only makes the violation larger); lnd/CLN internals (how cltv_limit / route delay are applied); reorganisations.",
 		Run:  runC05,
 	})
@@ -85,7 +84,88 @@ type c05Env struct {
 	w      *an.World
 	csv    int64 // constant GetCSVHeight of the wired Bitcoin validator
 	csvOK  bool
-	valIdx int // result index of the Validator in getOnChainServices
+	valIdx int // result index of the Validator in the chain-service selector
+	cache  map[*ssa.Function]*c05Atoms
+	// resolved structurally (no name anchors for unexported helpers)
+	servicesFn   *ssa.Function // method of package swap whose results include TxWatcher and Validator
+	servicesName string
+	policyFn     *ssa.Function // function of package swap returning (policy struct, error)
+	policyName   string
+	polName      string // type name of the policy struct (found by its fields)
+}
+
+// resolve finds the selector, the policy struct and the policy table by shape.
+func (e *c05Env) resolve(c *an.Check) bool {
+	w := e.w
+	pkg := w.ByRel["swap"]
+	if pkg == nil {
+		c.Anchor("package swap not loaded")
+		return false
+	}
+	var pol *types.Named
+	sc := pkg.Types.Scope()
+	for _, name := range sc.Names() {
+		tn, ok := sc.Lookup(name).(*types.TypeName)
+		if !ok || tn.IsAlias() {
+			continue
+		}
+		n, ok := tn.Type().(*types.Named)
+		if !ok {
+			continue
+		}
+		st, ok := n.Underlying().(*types.Struct)
+		if !ok {
+			continue
+		}
+		need := map[string]bool{"CSV": true, "PaymentWindow": true, "InvoiceFinalCLTV": true, "MaxTotalCLTVDelta": true, "AllowNewClaimPayment": true}
+		for i := 0; i < st.NumFields(); i++ {
+			delete(need, st.Field(i).Name())
+		}
+		if len(need) == 0 {
+			pol = n
+		}
+	}
+	if pol == nil {
+		c.Anchor("package swap has no struct type with the fields CSV, PaymentWindow, InvoiceFinalCLTV, MaxTotalCLTVDelta, AllowNewClaimPayment")
+		return false
+	}
+	e.polName = pol.Obj().Name()
+	for _, fn := range prodFuncs(w) {
+		if w.FnRel(fn) != "swap" || fn.Parent() != nil {
+			continue
+		}
+		r := fn.Signature.Results()
+		if r.Len() == 2 && an.NamedOf(r.At(0).Type()) == pol && an.IsErrorType(r.At(1).Type()) {
+			if _, isPtr := r.At(0).Type().(*types.Pointer); !isPtr {
+				e.policyFn, e.policyName = fn, "func:"+w.FuncName(fn)
+			}
+		}
+		if r.Len() >= 3 && fn.Signature.Recv() != nil {
+			hasW, hasV := false, false
+			for i := 0; i < r.Len(); i++ {
+				if n := an.NamedOf(r.At(i).Type()); n != nil && n.Obj().Pkg() == pkg.Types {
+					switch n.Obj().Name() {
+					case "TxWatcher":
+						hasW = true
+					case "Validator":
+						hasV = true
+					}
+				}
+			}
+			if hasW && hasV {
+				e.servicesFn, e.servicesName = fn, "func:"+w.FuncName(fn)
+			}
+		}
+	}
+	if e.policyFn == nil {
+		c.Anchor("no function of package swap returns (%s, error): the policy table is not found", e.polName)
+		return false
+	}
+	if e.servicesFn == nil {
+		c.Anchor("no method of package swap returns the chain services (TxWatcher, ..., Validator, error)")
+		return false
+	}
+	return true
 }
 
 // csvCall reports whether call is GetCSVHeight on the validator selected by
@@ -101,7 +181,7 @@ func (e *c05Env) csvCall(call *ssa.Call) bool {
 		return false
 	}
 	sel, ok := ex.Tuple.(*ssa.Call)
-	if !ok || w.Info(sel).Name != c05Services || len(sel.Call.Args) != 2 || w.Term(sel.Call.Args[1]) != "call:"+c05GetChain {
+	if !ok || w.Info(sel).Name != e.servicesName || len(sel.Call.Args) != 2 || w.Term(sel.Call.Args[1]) != "call:"+c05GetChain {
 		return false
 	}
 	// The fold is only used for facts on Bitcoin paths (c05Bounds cuts every edge
@@ -110,71 +190,119 @@ func (e *c05Env) csvCall(call *ssa.Call) bool {
 	return true
 }
 
-// linear builds Σ coef·term + c with GetCSVHeight of the Bitcoin validator and
-// divisions of constants folded.
-func (e *c05Env) linear(v ssa.Value) c05Lin {
-	w := e.w
-	out := c05Lin{T: map[string]int64{}, Leaf: map[string]ssa.Value{}}
-	var constOf func(v ssa.Value, depth int) (int64, bool)
-	constOf = func(v ssa.Value, depth int) (int64, bool) {
-		if i, ok := an.ConstInt(v); ok {
-			return i, true
+// c05Bind maps parameters of in-module helpers to the argument values of the
+// call through which a condition was reached (parameter -> argument binding).
+type c05Bind map[*ssa.Parameter]ssa.Value
+
+func (b c05Bind) resolve(v ssa.Value) ssa.Value {
+	for i := 0; i < 8; i++ {
+		p, ok := v.(*ssa.Parameter)
+		if !ok {
+			return v
 		}
-		if depth > 10 {
-			return 0, false
+		a, ok := b[p]
+		if !ok {
+			return v
 		}
-		switch x := v.(type) {
-		case *ssa.Convert:
-			if c05IsInt(x.Type()) && c05IsInt(x.X.Type()) {
-				return constOf(x.X, depth+1)
-			}
-		case *ssa.ChangeType:
-			return constOf(x.X, depth+1)
-		case *ssa.Call:
-			if e.csvCall(x) {
-				return e.csv, true
-			}
-		case *ssa.UnOp:
-			if x.Op == token.MUL {
-				if al, ok := x.X.(*ssa.Alloc); ok && al.Referrers() != nil {
-					var st []ssa.Value
-					for _, r := range *al.Referrers() {
-						if s, ok := r.(*ssa.Store); ok && s.Addr == al {
-							st = append(st, s.Val)
-						}
-					}
-					if len(st) == 1 {
-						return constOf(st[0], depth+1)
-					}
-				}
-			}
-		case *ssa.BinOp:
-			a, aok := constOf(x.X, depth+1)
-			b, bok := constOf(x.Y, depth+1)
-			if aok && bok {
-				switch x.Op {
-				case token.ADD:
-					return a + b, true
-				case token.SUB:
-					return a - b, true
-				case token.MUL:
-					return a * b, true
-				case token.QUO:
-					if b != 0 && a >= 0 && b > 0 {
-						return a / b, true
-					}
-				}
-			}
+		v = a
+	}
+	return v
+}
+
+func c05SingleStore(al *ssa.Alloc) (ssa.Value, bool) {
+	if al.Referrers() == nil {
+		return nil, false
+	}
+	var st []ssa.Value
+	for _, r := range *al.Referrers() {
+		if s, ok := r.(*ssa.Store); ok && s.Addr == al {
+			st = append(st, s.Val)
 		}
+	}
+	if len(st) == 1 {
+		return st[0], true
+	}
+	return nil, false
+}
+
+// constOf folds an integer expression to a constant: literals, conversions,
+// single-assignment locals, GetCSVHeight of the Bitcoin validator, and + - * /
+// % << >> of such (unsigned / non-negative operands only for / % >>).
+func (e *c05Env) constOf(v ssa.Value, bind c05Bind, depth int) (int64, bool) {
+	v = bind.resolve(v)
+	if i, ok := an.ConstInt(v); ok {
+		return i, true
+	}
+	if depth > 12 {
 		return 0, false
 	}
+	switch x := v.(type) {
+	case *ssa.Convert:
+		if c05IsInt(x.Type()) && c05IsInt(x.X.Type()) {
+			return e.constOf(x.X, bind, depth+1)
+		}
+	case *ssa.ChangeType:
+		return e.constOf(x.X, bind, depth+1)
+	case *ssa.Call:
+		if e.csvCall(x) {
+			return e.csv, true
+		}
+	case *ssa.UnOp:
+		if x.Op == token.MUL {
+			if al, ok := x.X.(*ssa.Alloc); ok {
+				if sv, ok := c05SingleStore(al); ok {
+					return e.constOf(sv, bind, depth+1)
+				}
+			}
+		}
+	case *ssa.BinOp:
+		a, aok := e.constOf(x.X, bind, depth+1)
+		b, bok := e.constOf(x.Y, bind, depth+1)
+		if aok && bok {
+			switch x.Op {
+			case token.ADD:
+				return a + b, true
+			case token.SUB:
+				return a - b, true
+			case token.MUL:
+				return a * b, true
+			case token.QUO:
+				if a >= 0 && b > 0 {
+					return a / b, true
+				}
+			case token.REM:
+				if a >= 0 && b > 0 {
+					return a % b, true
+				}
+			case token.SHR:
+				if a >= 0 && b >= 0 && b < 63 {
+					return a >> uint(b), true
+				}
+			case token.SHL:
+				if a >= 0 && b >= 0 && b < 31 && a < 1<<31 {
+					return a << uint(b), true
+				}
+			}
+		}
+	}
+	return 0, false
+}
+
+// linear builds Σ coef·term + c with constants folded (constOf) and helper
+// parameters replaced by the bound arguments.
+func (e *c05Env) linear(v ssa.Value) c05Lin { return e.linearB(v, nil) }
+
+func (e *c05Env) linearB(v ssa.Value, bind c05Bind) c05Lin {
+	w := e.w
+	out := c05Lin{T: map[string]int64{}, Leaf: map[string]ssa.Value{}}
 	var rec func(v ssa.Value, sign int64, depth int)
 	rec = func(v ssa.Value, sign int64, depth int) {
-		if i, ok := constOf(v, 0); ok {
+		v = bind.resolve(v)
+		if i, ok := e.constOf(v, bind, 0); ok {
 			out.C += sign * i
 			return
 		}
-		if depth < 10 {
+		if depth < 12 {
 			switch x := v.(type) {
 			case *ssa.Convert:
 				if c05IsInt(x.Type()) && c05IsInt(x.X.Type()) {
@@ -186,15 +314,9 @@ func (e *c05Env) linear(v ssa.Value) c05Lin {
 				return
 			case *ssa.UnOp:
 				if x.Op == token.MUL {
-					if al, ok := x.X.(*ssa.Alloc); ok && al.Referrers() != nil {
-						var st []ssa.Value
-						for _, r := range *al.Referrers() {
-							if s, ok := r.(*ssa.Store); ok && s.Addr == al {
-								st = append(st, s.Val)
-							}
-						}
-						if len(st) == 1 {
-							rec(st[0], sign, depth+1)
+					if al, ok := x.X.(*ssa.Alloc); ok {
+						if sv, ok := c05SingleStore(al); ok {
+							rec(sv, sign, depth+1)
 							return
 						}
 					}
@@ -233,34 +355,126 @@ type c05Ineq struct {
 	Pos  token.Pos
 }
 
-// ineqs re-derives the integer inequalities of fn with the environment's folding.
-func (e *c05Env) ineqs(fn *ssa.Function) []c05Ineq {
-	var out []c05Ineq
-	for _, f := range e.w.Facts(fn) {
-		if f.NonNum || f.Terms == nil || f.LV == nil || f.RV == nil {
+// c05Atoms is what the conditions of fn's branches say on each edge, with
+// predicate helpers (in-module functions with one bool result and one return)
+// looked into: integer inequalities, and what is known about the chain.
+type c05Atoms struct {
+	ineqs []c05Ineq
+	eqs   []c05Ineq // Rel "==" / "!=" over integers
+	// chain[e]: 2 = chain == "btc", 1 = chain != "lbtc", -1 = chain is not Bitcoin
+	chain map[an.Edge]int
+	// helpers that were entered but whose shape could not be interpreted
+	opaque []string
+}
+
+func (e *c05Env) atoms(fn *ssa.Function) *c05Atoms {
+	if e.cache == nil {
+		e.cache = map[*ssa.Function]*c05Atoms{}
+	}
+	if a, ok := e.cache[fn]; ok {
+		return a
+	}
+	a := &c05Atoms{chain: map[an.Edge]int{}}
+	e.cache[fn] = a
+	for _, b := range fn.Blocks {
+		if len(b.Instrs) == 0 {
 			continue
 		}
-		bo, ok := f.Cond.(*ssa.BinOp)
-		if !ok {
+		ifi, ok := b.Instrs[len(b.Instrs)-1].(*ssa.If)
+		if !ok || len(b.Succs) != 2 || b.Succs[0] == b.Succs[1] {
 			continue
 		}
-		ifi, ok := f.Edge.From.Instrs[len(f.Edge.From.Instrs)-1].(*ssa.If)
-		if !ok {
-			continue
+		e.expand(a, ifi.Cond, true, an.Edge{From: b, Idx: 0}, nil, 0)
+		e.expand(a, ifi.Cond, false, an.Edge{From: b, Idx: 1}, nil, 0)
+	}
+	return a
+}
+
+// expand records what "cond has the value truth" implies on edge.
+func (e *c05Env) expand(a *c05Atoms, cond ssa.Value, truth bool, edge an.Edge, bind c05Bind, depth int) {
+	w := e.w
+	if depth > 6 {
+		return
+	}
+	cond = bind.resolve(cond)
+	switch x := cond.(type) {
+	case *ssa.UnOp:
+		if x.Op == token.NOT {
+			e.expand(a, x.X, !truth, edge, bind, depth+1)
 		}
-		neg := false
-		for cv := ifi.Cond; ; {
-			u, isNot := cv.(*ssa.UnOp)
-			if !isNot || u.Op != token.NOT {
-				break
+		return
+	case *ssa.Phi:
+		// a && b (true edge implies both), a || b (false edge refutes both)
+		ops, isAnd, ok := an.PhiConjuncts(x)
+		if !ok || isAnd != truth {
+			return
+		}
+		for _, op := range ops {
+			e.expand(a, op, truth, edge, bind, depth+1)
+		}
+		for i, in := range x.Edges {
+			if _, isC := in.(*ssa.Const); !isC {
+				continue
 			}
-			neg = !neg
-			cv = u.X
+			pred := x.Block().Preds[i]
+			if len(pred.Instrs) == 0 {
+				continue
+			}
+			if pi, ok := pred.Instrs[len(pred.Instrs)-1].(*ssa.If); ok && len(pred.Succs) == 2 {
+				if (isAnd && pred.Succs[1] == x.Block() && pred.Succs[0] != x.Block()) ||
+					(!isAnd && pred.Succs[0] == x.Block() && pred.Succs[1] != x.Block()) {
+					e.expand(a, pi.Cond, truth, edge, bind, depth+1)
+				}
+			}
 		}
-		holds := (f.Edge.Idx == 0) != neg
-		op := bo.Op
-		if !holds {
+		return
+	case *ssa.Call:
+		g := x.Call.StaticCallee()
+		if g == nil || x.Call.IsInvoke() || !w.InModule(g) || g.Blocks == nil {
+			return
+		}
+		res := g.Signature.Results()
+		if res.Len() != 1 {
+			return
+		}
+		if bt, ok := res.At(0).Type().Underlying().(*types.Basic); !ok || bt.Info()&types.IsBoolean == 0 {
+			return
+		}
+		rets := an.Returns(g)
+		if len(rets) != 1 || len(g.Params) != len(x.Call.Args) {
+			a.opaque = append(a.opaque, w.FuncName(g))
+			return
+		}
+		nb := c05Bind{}
+		for k, v := range bind {
+			nb[k] = v
+		}
+		for i, p := range g.Params {
+			nb[p] = bind.resolve(x.Call.Args[i])
+		}
+		e.expand(a, rets[0].Results[0], truth, edge, nb, depth+1)
+		return
+	case *ssa.BinOp:
+		op := x.Op
+		// b == true / b != false on a boolean
+		if (op == token.EQL || op == token.NEQ) && !c05IsInt(x.X.Type()) {
+			if bt, ok := x.X.Type().Underlying().(*types.Basic); ok && bt.Info()&types.IsBoolean != 0 {
+				for _, pr := range [][2]ssa.Value{{x.X, x.Y}, {x.Y, x.X}} {
+					if cv, ok := pr[1].(*ssa.Const); ok && cv.Value != nil {
+						isTrue := cv.Value.String() == "true"
+						e.expand(a, pr[0], truth == ((op == token.EQL) == isTrue), edge, bind, depth+1)
+						return
+					}
+				}
+				return
+			}
+		}
+		if !truth {
 			switch op {
+			case token.EQL:
+				op = token.NEQ
+			case token.NEQ:
+				op = token.EQL
 			case token.LSS:
 				op = token.GEQ
 			case token.LEQ:
@@ -270,10 +484,40 @@ func (e *c05Env) ineqs(fn *ssa.Function) []c05Ineq {
 			case token.GEQ:
 				op = token.LSS
 			default:
-				continue
+				return
 			}
 		}
-		l, r := e.linear(bo.X), e.linear(bo.Y)
+		if !c05IsInt(x.X.Type()) || !c05IsInt(x.Y.Type()) {
+			if op != token.EQL && op != token.NEQ {
+				return
+			}
+			l, r := w.Term(bind.resolve(x.X)), w.Term(bind.resolve(x.Y))
+			other := ""
+			switch {
+			case strings.HasSuffix(l, "call:"+c05GetChain):
+				other = r
+			case strings.HasSuffix(r, "call:"+c05GetChain):
+				other = l
+			default:
+				return
+			}
+			v := 0
+			switch {
+			case op == token.EQL && other == `"`+c05Bitcoin+`"`:
+				v = 2
+			case op == token.NEQ && other == `"`+c05Liquid+`"`:
+				v = 1
+			case op == token.EQL && other == `"`+c05Liquid+`"`, op == token.NEQ && other == `"`+c05Bitcoin+`"`:
+				v = -1
+			}
+			if v != 0 {
+				if old, ok := a.chain[edge]; !ok || old == 1 {
+					a.chain[edge] = v
+				}
+			}
+			return
+		}
+		l, r := e.linearB(x.X, bind), e.linearB(x.Y, bind)
 		d := c05Lin{T: map[string]int64{}, Leaf: map[string]ssa.Value{}}
 		for k, c := range l.T {
 			d.T[k] += c
@@ -295,8 +539,16 @@ func (e *c05Env) ineqs(fn *ssa.Function) []c05Ineq {
 			rel, flip = ">", true
 		case token.LEQ:
 			rel, flip = ">=", true
+		case token.EQL, token.NEQ:
+			for k, c := range d.T {
+				if c == 0 {
+					delete(d.T, k)
+				}
+			}
+			a.eqs = append(a.eqs, c05Ineq{Edge: edge, L: d, Rel: op.String(), Pos: x.Pos()})
+			return
 		default:
-			continue
+			return
 		}
 		if flip {
 			for k := range d.T {
@@ -309,13 +561,16 @@ func (e *c05Env) ineqs(fn *ssa.Function) []c05Ineq {
 				delete(d.T, k)
 			}
 		}
-		out = append(out, c05Ineq{Edge: f.Edge, L: d, Rel: rel, Pos: bo.Pos()})
+		a.ineqs = append(a.ineqs, c05Ineq{Edge: edge, L: d, Rel: rel, Pos: x.Pos()})
 	}
-	return out
 }
 
-// c05ChainFact: 2 = chain == "btc" holds, 1 = chain is not Liquid (but not
-// positively Bitcoin), -1 = chain is not Bitcoin, 0 = unrelated.
+// ineqs: the integer inequalities of fn's branch edges.
+func (e *c05Env) ineqs(fn *ssa.Function) []c05Ineq { return e.atoms(fn).ineqs }
+
+// c05ChainFact classifies an engine fact (used inside the small table/selector
+// functions, where no helper indirection is followed): 2 = chain == "btc",
+// 1 = chain != "lbtc", -1 = chain is not Bitcoin, 0 = unrelated.
 func c05ChainFact(f an.Fact) int {
 	if !f.NonNum {
 		return 0
@@ -340,13 +595,20 @@ func c05ChainFact(f an.Fact) int {
 	return 0
 }
 
-func c05NonBitcoinEdges(w *an.World, fn *ssa.Function) []an.Edge {
+// nonBitcoinEdges: the edges of fn on which the swap is known not to be a Bitcoin swap.
+func (e *c05Env) nonBitcoinEdges(fn *ssa.Function) []an.Edge {
 	var out []an.Edge
-	for _, f := range w.Facts(fn) {
-		if c05ChainFact(f) < 0 {
-			out = append(out, f.Edge)
+	for ed, v := range e.atoms(fn).chain {
+		if v < 0 {
+			out = append(out, ed)
 		}
 	}
+	sort.Slice(out, func(i, j int) bool {
+		if out[i].From.Index != out[j].From.Index {
+			return out[i].From.Index < out[j].From.Index
+		}
+		return out[i].Idx < out[j].Idx
+	})
 	return out
 }
 
@@ -424,15 +686,14 @@ func c05Impls(w *an.World, rel, iface, method string) []*ssa.Function {
 func runC05(c *an.Check) {
 	c.Rule("C05.R1", "extract from the guards: script CSV, validator CSV (wiring), Fmax (largest accepted invoice final CLTV), Wmax (largest accepted now-start at every payment attempt), route delay R per back-end on the unlimited path")
 	c.Rule("C05.R2", "Wmax + Fmax + R < CSV for every back-end (construct carries the extracted constants)")
+	c.Rule("C05.R3", "the anchor all Bitcoin windows are measured from is set once: in every action a taker table runs in a state that Recover re-executes (not FailOnrecover), every store to SwapData.StartingBlockHeight is dominated by StartingBlockHeight == 0 or is unreachable for a Bitcoin swap")
 	if !needEffects(c, fxPay, fxWaitConf, fxBlockHeight, fxDecodePayreq) {
 		return
 	}
 	w := c.W
-	for _, n := range []string{"(*SwapData).GetChain", "(*SwapData).getTimelockPolicy", "(*SwapServices).getOnChainServices"} {
-		if w.Func("swap", n) == nil {
-			c.Anchor("swap.%s does not resolve", n)
-			return
-		}
+	if w.Func("swap", "(*SwapData).GetChain") == nil {
+		c.Anchor("swap.(*SwapData).GetChain does not resolve")
+		return
 	}
 	if w.Func("onchain", "(*BitcoinOnChain).ValidateTx") == nil || w.Func("onchain", "ParamsToTxScript") == nil {
 		c.Anchor("onchain.(*BitcoinOnChain).ValidateTx / onchain.ParamsToTxScript do not resolve")
@@ -455,9 +716,13 @@ func runC05(c *an.Check) {
 	}
 
 	env := &c05Env{w: w, valIdx: -1}
+	if !env.resolve(c) {
+		return
+	}
+	c05R3(c, env)
 	csvScript, okScript := c05ScriptCSV(c)
 	c05ValidatorCSV(c, env)
-	limitOK := c05BitcoinLimit(c)
+	limitOK := c05BitcoinLimit(c, env)
 	wmax, okW := c05Wmax(c, env)
 	fmax, okF := c05Fmax(c, env)
 	delays, okR := c05RouteDelays(c)
@@ -496,8 +761,8 @@ func runC05(c *an.Check) {
 		fails = append(fails, fmt.Sprintf("the windows are derived from GetCSVHeight()=%d but the accepted script uses CSV=%d", env.csv, csvScript))
 	}
 	pos := "-"
-	if ps := findCallSites(w, fxPay); len(ps) > 0 {
-		pos = w.Pos(ps[0].Pos())
+	if ps := c05PaySites(w); len(ps) > 0 {
+		pos = w.Pos(ps[0].at.Pos())
 	}
 	if len(fails) == 0 {
 		c.OK("C05.R2", cons, pos, "Wmax+Fmax+R < CSV for every back-end: "+strings.Join(passes, " | "))
@@ -507,12 +772,140 @@ func runC05(c *an.Check) {
 	c.Note("C05.R2", "confirmation height vs StartingBlockHeight", "-", "no confirmation height reaches package swap (TxWatcher confirmation callback = (swapId, txHex, err)); the pay-time guard is relative to StartingBlockHeight only; R2 is therefore evaluated for conf = start, the best case for the code")
 }
 
+// c05R3: Wmax, the watcher limit and the await-state range check are all
+// relative to SwapData.StartingBlockHeight, while the maker's CSV runs from the
+// confirmation. SwapStateMachine.Recover re-executes the action of the current
+// state after every restart unless the state is FailOnrecover, so a store to
+// the anchor in such an action must be conditional on the anchor still being
+// unset; otherwise every restart moves all Bitcoin windows forward.
+func c05R3(c *an.Check, env *c05Env) {
+	w := c.W
+	ts := tables(c)
+	if ts == nil {
+		return
+	}
+	tk := takers(ts)
+	if !c.AtLeast("C05.R3", "taker tables", len(tk), 2) {
+		return
+	}
+	writers := map[*ssa.Function][]*ssa.Store{}
+	for _, st := range w.FieldWriters("SwapData.StartingBlockHeight") {
+		if an.IsTestSupport(w.FnRel(st.Parent())) {
+			continue
+		}
+		writers[st.Parent()] = append(writers[st.Parent()], st)
+	}
+	// setOnce: a dominating edge says StartingBlockHeight == 0 (predicate helpers
+	// looked into); mentions: some dominating condition at least talks about the anchor.
+	setOnce := func(b *ssa.BasicBlock) (is, mentions bool) {
+		at := env.atoms(b.Parent())
+		for _, q := range at.eqs {
+			if _, has := q.L.T[c05StartTerm]; !has || !an.EdgeDominates(q.Edge, b) {
+				continue
+			}
+			mentions = true
+			if q.Rel == "==" && q.L.C == 0 && len(q.L.T) == 1 {
+				is = true
+			}
+		}
+		for _, q := range at.ineqs {
+			if _, has := q.L.T[c05StartTerm]; has && an.EdgeDominates(q.Edge, b) {
+				mentions = true
+				// unsigned: start <= 0 is start == 0
+				if q.Rel == ">=" && q.L.C == 0 && len(q.L.T) == 1 && q.L.T[c05StartTerm] == -1 {
+					is = true
+				}
+			}
+		}
+		for _, f := range w.FactsDominatingBlock(b) {
+			if strings.Contains(f.Atom, "SwapData.StartingBlockHeight") || strings.Contains(f.L+f.R, "SwapData.StartingBlockHeight") {
+				mentions = true
+			}
+		}
+		if len(at.opaque) > 0 {
+			mentions = true
+		}
+		return
+	}
+	btcReach := func(fn *ssa.Function, b *ssa.BasicBlock) bool {
+		return an.ReachBlocks([]*ssa.BasicBlock{fn.Blocks[0]}, c05Cut(env.nonBitcoinEdges(fn)), nil)[b]
+	}
+	nStates := 0
+	for _, t := range tk {
+		for _, s := range t.T.Order {
+			e := t.T.States[s]
+			if e.FailOnRecover || len(t.Sum[s].Execs) == 0 {
+				continue
+			}
+			// the functions this state runs synchronously
+			type site struct {
+				fn     *ssa.Function
+				caller ssa.CallInstruction // nil for the action's own Execute
+			}
+			var fns []site
+			seen := map[*ssa.Function]bool{}
+			for _, ex := range t.Sum[s].Execs {
+				if !seen[ex] {
+					seen[ex] = true
+					fns = append(fns, site{fn: ex})
+				}
+			}
+			for _, ef := range t.Sum[s].Effects {
+				if g := ef.Info.Static; g != nil && !ef.Info.IsGo && w.InModule(g) && !seen[g] && len(writers[g]) > 0 {
+					seen[g] = true
+					fns = append(fns, site{fn: g, caller: ef.Info.Instr})
+				}
+			}
+			has := false
+			for _, x := range fns {
+				for _, st := range writers[x.fn] {
+					has = true
+					cons := t.key(s) + " store in " + w.FuncName(x.fn)
+					pos := w.Pos(st.Pos())
+					once, mentions := setOnce(st.Block())
+					switch {
+					case once:
+						c.OK("C05.R3", cons, pos, "the anchor is only written under StartingBlockHeight == 0 (set once; a re-execution after a restart keeps it)")
+					case !btcReach(x.fn, st.Block()):
+						c.OK("C05.R3", cons, pos, "the store is unreachable for a Bitcoin swap (Liquid anchor: C13.R3)")
+					case x.caller == nil && mentions:
+						c.Unknown("C05.R3", cons, pos, "the store to the anchor is conditional on something that involves the anchor (or on an opaque predicate helper), but not recognisably on StartingBlockHeight == 0: unsupported shape. Facts: "+an.DescribeFacts(w.FactsDominatingBlock(st.Block())))
+					case x.caller == nil:
+						c.Bad("C05.R3", cons, pos, "this state is re-executed by Recover after every restart and its action overwrites SwapData.StartingBlockHeight without requiring it to be unset: each restart of a Bitcoin taker in this state moves the anchor of every payment-window check (await-state range check, watcher limit, pay-loop now-start bound) forward to the restart height, while the maker's CSV keeps running from the confirmation; a claim payment can then be sent at a height P with P + route CLTV >= confirmation + CSV. Facts that do dominate the store: "+an.DescribeFacts(w.FactsDominatingBlock(st.Block())))
+					default:
+						// the store sits in a helper: credit a guard at the call site
+						cb := x.caller.Block()
+						cf := cb.Parent()
+						if o, _ := setOnce(cb); o || !btcReach(cf, cb) {
+							c.OK("C05.R3", cons, pos, "the helper that writes the anchor is only called under StartingBlockHeight == 0 / not for Bitcoin swaps")
+						} else {
+							c.Unknown("C05.R3", cons, pos, "the anchor is written inside a helper and neither the store nor its call site at "+w.Pos(x.caller.Pos())+" is visibly conditional on StartingBlockHeight == 0; a condition passed through parameters is a shape this rule does not interpret")
+						}
+					}
+				}
+			}
+			if has {
+				nStates++
+			}
+		}
+	}
+	c.AtLeast("C05.R3", "recoverable taker states whose action writes StartingBlockHeight", nStates, 2)
+}
+
 // c05ScriptCSV: the CSV the taker's Bitcoin validator requires in the script it accepts.
 func c05ScriptCSV(c *an.Check) (int64, bool) {
 	w := c.W
 	fn := w.Func("onchain", "(*BitcoinOnChain).ValidateTx")
 	calls := callsNamed(w, fn, c05Script)
-	if !c.AtLeast("C05.R1", "ParamsToTxScript calls in (*BitcoinOnChain).ValidateTx", len(calls), 1) {
+	if len(calls) == 0 {
+		// the script may be built by a helper of the validator
+		for _, ef := range w.Summary(fn).Sites(c05Script) {
+			if !ef.Info.IsGo {
+				calls = append(calls, ef.Info.Instr)
+			}
+		}
+	}
+	if !c.AtLeast("C05.R1", "ParamsToTxScript calls reached from (*BitcoinOnChain).ValidateTx", len(calls), 1) {
 		return 0, false
 	}
 	vals := map[int64]bool{}
@@ -545,7 +938,7 @@ func c05ScriptCSV(c *an.Check) (int64, bool) {
 // a *T whose GetCSVHeight returns one constant.
 func c05ValidatorCSV(c *an.Check, env *c05Env) {
 	w := c.W
-	sel := w.Func("swap", "(*SwapServices).getOnChainServices")
+	sel := env.servicesFn
 	pos := w.Pos(sel.Pos())
 	res := sel.Signature.Results()
 	for i := 0; i < res.Len(); i++ {
@@ -667,9 +1060,9 @@ func c05ValidatorCSV(c *an.Check, env *c05Env) {
 // c05BitcoinLimit: the Bitcoin policy row leaves the route limit at 0 and that
 // field is what the action hands to the back-end, so the back-ends run their
 // unlimited path for Bitcoin swaps.
-func c05BitcoinLimit(c *an.Check) bool {
+func c05BitcoinLimit(c *an.Check, env *c05Env) bool {
 	w := c.W
-	fn := w.Func("swap", "(*SwapData).getTimelockPolicy")
+	fn := env.policyFn
 	n := 0
 	ok := true
 	for _, r := range an.Returns(fn) {
@@ -709,9 +1102,9 @@ func c05BitcoinLimit(c *an.Check) bool {
 	if !c.AtLeast("C05.R1", "Bitcoin rows of getTimelockPolicy", n, 1) {
 		return false
 	}
-	for _, p := range findCallSites(w, fxPay) {
-		args := p.Common().Args
-		if len(args) != 3 || w.Term(args[2]) != "call:"+c05Policy+"#0>timelockPolicy.MaxTotalCLTVDelta" {
+	for _, site := range c05PaySites(w) {
+		p := site.at
+		if len(site.pay.Common().Args) != 3 || site.argTerm(w, 2) != "call:"+env.policyName+"#0>"+env.polName+".MaxTotalCLTVDelta" {
 			c.Unknown("C05.R1", "Bitcoin route limit", w.Pos(p.Pos()), "the limit argument of RebalancePayment is not policy.MaxTotalCLTVDelta; which builder path Bitcoin payments take is not decided (see C04.R6)")
 			ok = false
 		}
@@ -784,19 +1177,129 @@ func c05HandedToHelper(w *an.World, fn *ssa.Function, term string, nonBtc []an.E
 	return ""
 }
 
+// c05Site is a claim-payment site as seen from the function that decides about
+// it: the RebalancePayment call itself, or — when the call sits in a small
+// in-module helper that has static callers — the call of that helper (lifted,
+// to a bounded depth), with the helper's parameters bound to the arguments.
+type c05Site struct {
+	at    ssa.CallInstruction   // instruction in the deciding function
+	pay   ssa.CallInstruction   // the RebalancePayment call
+	steps []ssa.CallInstruction // helper calls from the innermost outwards (empty when not lifted)
+	// the pay call can repeat inside a helper without returning to the caller
+	loopInHelper bool
+}
+
+var c05ParamRx = regexp.MustCompile(`param#(\d+)`)
+
+// argTerm names argument i of the pay call in the vocabulary of the deciding function.
+func (s c05Site) argTerm(w *an.World, i int) string {
+	args := s.pay.Common().Args
+	if i >= len(args) {
+		return ""
+	}
+	t := w.Term(args[i])
+	for _, st := range s.steps {
+		cargs := st.Common().Args
+		t = c05ParamRx.ReplaceAllStringFunc(t, func(m string) string {
+			k := 0
+			fmt.Sscanf(m, "param#%d", &k)
+			if k < len(cargs) {
+				return w.Term(cargs[k])
+			}
+			return m
+		})
+	}
+	return t
+}
+
+// argRoot returns the value at the root of argument i's field chain, followed
+// through helper parameters into the deciding function (nil if not traceable).
+func (s c05Site) argRoot(w *an.World, i int) ssa.Value {
+	args := s.pay.Common().Args
+	if i >= len(args) {
+		return nil
+	}
+	v := args[i]
+	for {
+		if cv, ok := v.(*ssa.Convert); ok {
+			v = cv.X
+			continue
+		}
+		break
+	}
+	_, root := w.FieldChain(v)
+	for _, st := range s.steps {
+		p, ok := root.(*ssa.Parameter)
+		if !ok {
+			return nil
+		}
+		k := -1
+		for j, q := range p.Parent().Params {
+			if q == p {
+				k = j
+			}
+		}
+		if k < 0 || k >= len(st.Common().Args) {
+			return nil
+		}
+		_, root = w.FieldChain(st.Common().Args[k])
+	}
+	return root
+}
+
+// c05PaySites lists the claim-payment sites, lifted out of helpers.
+func c05PaySites(w *an.World) []c05Site { return c05Sites(w, fxPay) }
+
+// c05Sites lists the call sites of the service method name, lifted out of helpers.
+func c05Sites(w *an.World, name string) []c05Site {
+	var out []c05Site
+	var lift func(s c05Site, depth int)
+	lift = func(s c05Site, depth int) {
+		fn := s.at.Parent()
+		var callers []ssa.CallInstruction
+		if fn.Parent() == nil && depth < 3 {
+			for _, cs := range findCallSites(w, "func:"+w.FuncName(fn)) {
+				if _, isCall := cs.(*ssa.Call); isCall && len(cs.Common().Args) == len(fn.Params) {
+					callers = append(callers, cs)
+				}
+			}
+		}
+		if len(callers) == 0 {
+			out = append(out, s)
+			return
+		}
+		if an.ReachBlocks(s.at.Block().Succs, nil, nil)[s.at.Block()] {
+			s.loopInHelper = true
+		}
+		for _, cs := range callers {
+			lift(c05Site{at: cs, pay: s.pay, steps: append(append([]ssa.CallInstruction{}, s.steps...), cs), loopInHelper: s.loopInHelper}, depth+1)
+		}
+	}
+	for _, p := range findCallSites(w, name) {
+		lift(c05Site{at: p, pay: p}, 0)
+	}
+	return out
+}
+
 // c05Wmax: the largest now-start accepted at a payment attempt on the Bitcoin branch.
 func c05Wmax(c *an.Check, env *c05Env) (int64, bool) {
 	w := c.W
-	sites := findCallSites(w, fxPay)
+	sites := c05PaySites(w)
 	if !c.AtLeast("C05.R1", "claim-payment call sites", len(sites), 1) {
 		return 0, false
 	}
 	worst, ok := int64(-1), true
-	for _, p := range sites {
+	for _, site := range sites {
+		p := site.at // the pay call, or the call of the helper that pays
 		fn := p.Parent()
 		cons := "Wmax at " + w.FuncName(fn)
 		pos := w.Pos(p.Pos())
-		found, almost, unres := c05Bounds(w, env.ineqs(fn), map[string]int64{c05HeightTerm: -1, c05StartTerm: 1}, c05NonBitcoinEdges(w, fn), p.Block(), true)
+		if site.loopInHelper {
+			ok = false
+			c.Unknown("C05.R1", cons, pos, "the payment is made inside a helper in which it can repeat without returning to the caller's checks: unsupported shape")
+			continue
+		}
+		found, almost, unres := c05Bounds(w, env.ineqs(fn), map[string]int64{c05HeightTerm: -1, c05StartTerm: 1}, env.nonBitcoinEdges(fn), p.Block(), true)
 		// the height must be read in the same attempt
 		var good []c05Found
 		for _, f := range found {
@@ -805,7 +1308,7 @@ func c05Wmax(c *an.Check, env *c05Env) (int64, bool) {
 			if h != nil {
 				// every way from one attempt to the comparison re-executes the read
 				fresh = h.Block() == f.iq.Edge.From || !an.ReachBlocks(p.Block().Succs, nil, map[*ssa.BasicBlock]bool{h.Block(): true})[f.iq.Edge.From]
-				if recv := h.Call.Value; recv == nil || !strings.HasPrefix(w.Term(recv), "call:"+c05Services+"#") {
+				if recv := h.Call.Value; recv == nil || !strings.HasPrefix(w.Term(recv), "call:"+env.servicesName+"#") {
 					fresh = false
 				}
 			}
@@ -820,7 +1323,12 @@ func c05Wmax(c *an.Check, env *c05Env) (int64, bool) {
 			c.Unknown("C05.R1", cons, pos, "a comparison of now and StartingBlockHeight dominates the payment but its bound is not a constant this rule can fold: "+strings.Join(unres, " | "))
 			continue
 		}
-		if h := c05HandedToHelper(w, fn, c05HeightTerm, c05NonBitcoinEdges(w, fn), p.Block()); len(good) == 0 && h != "" {
+		if op := env.atoms(fn).opaque; len(good) == 0 && len(op) > 0 {
+			ok = false
+			c.Unknown("C05.R1", cons, pos, "no inline bound on now-start and the action branches on predicate helpers this rule cannot look into (more than one return): "+strings.Join(op, ", "))
+			continue
+		}
+		if h := c05HandedToHelper(w, fn, c05HeightTerm, env.nonBitcoinEdges(fn), p.Block()); len(good) == 0 && h != "" {
 			ok = false
 			c.Unknown("C05.R1", cons, pos, "no inline bound on now-start, but the height is handed to "+h+" on the Bitcoin branch: a comparison moved into a helper is a shape this rule does not interpret")
 			continue
@@ -848,9 +1356,9 @@ func c05Wmax(c *an.Check, env *c05Env) (int64, bool) {
 // watch (whose callback leads to the pay state) is registered.
 func c05Fmax(c *an.Check, env *c05Env) (int64, bool) {
 	w := c.W
-	var regs []ssa.CallInstruction
-	for _, r := range findCallSites(w, fxWaitConf) {
-		if w.FnRel(r.Parent()) == "swap" {
+	var regs []c05Site
+	for _, r := range c05Sites(w, fxWaitConf) {
+		if w.FnRel(r.at.Parent()) == "swap" {
 			regs = append(regs, r)
 		}
 	}
@@ -858,18 +1366,20 @@ func c05Fmax(c *an.Check, env *c05Env) (int64, bool) {
 		return 0, false
 	}
 	payTerms := map[string]bool{}
-	for _, p := range findCallSites(w, fxPay) {
-		if len(p.Common().Args) > 0 {
-			payTerms[w.Term(p.Common().Args[0])] = true
+	for _, site := range c05PaySites(w) {
+		if t := site.argTerm(w, 0); t != "" {
+			payTerms[t] = true
 		}
 	}
 	worst, ok := int64(-1), true
 	covered := map[*ssa.Function]bool{}
-	for _, reg := range regs {
+	for _, rsite := range regs {
+		reg := rsite.at
 		fn := reg.Parent()
 		covered[fn] = true
+		covered[rsite.pay.Parent()] = true
 		cons := "Fmax at " + w.FuncName(fn)
-		found, almost, unres := c05Bounds(w, env.ineqs(fn), map[string]int64{c05FinalTerm: -1}, c05NonBitcoinEdges(w, fn), reg.Block(), false)
+		found, almost, unres := c05Bounds(w, env.ineqs(fn), map[string]int64{c05FinalTerm: -1}, env.nonBitcoinEdges(fn), reg.Block(), false)
 		var good []c05Found
 		for _, f := range found {
 			d := c05CallOf(f.iq.L.Leaf[c05FinalTerm])
@@ -884,7 +1394,12 @@ func c05Fmax(c *an.Check, env *c05Env) (int64, bool) {
 			c.Unknown("C05.R1", cons, w.Pos(reg.Pos()), "a comparison of the invoice final CLTV dominates the registration but its bound is not a constant this rule can fold: "+strings.Join(unres, " | "))
 			continue
 		}
-		if h := c05HandedToHelper(w, fn, c05FinalTerm, c05NonBitcoinEdges(w, fn), reg.Block()); len(good) == 0 && h != "" {
+		if op := env.atoms(fn).opaque; len(good) == 0 && len(op) > 0 {
+			ok = false
+			c.Unknown("C05.R1", cons, w.Pos(reg.Pos()), "no inline bound on the invoice final CLTV and the action branches on predicate helpers this rule cannot look into (more than one return): "+strings.Join(op, ", "))
+			continue
+		}
+		if h := c05HandedToHelper(w, fn, c05FinalTerm, env.nonBitcoinEdges(fn), reg.Block()); len(good) == 0 && h != "" {
 			ok = false
 			c.Unknown("C05.R1", cons, w.Pos(reg.Pos()), "no inline bound on the invoice final CLTV, but it is handed to "+h+" on the Bitcoin branch: a comparison moved into a helper is a shape this rule does not interpret")
 			continue
@@ -1000,42 +1515,36 @@ func c05RouteDelays(c *an.Check) (map[string]int64, bool) {
 				}
 			}
 			pT := fmt.Sprintf("param#%d", idx)
-			for _, blk := range x.fn.Blocks {
-				for _, in := range blk.Instrs {
-					st, isStore := in.(*ssa.Store)
-					if !isStore {
+			inReached := map[*ssa.Function]bool{}
+			for _, y := range reached {
+				inReached[y.fn] = true
+			}
+			for _, sv := range c05SentValues(w, x.fn, inReached, 0) {
+				for _, alt := range c05Alternatives(w, sv.v, sv.at, pT) {
+					if !alt.unlimited {
 						continue
 					}
-					fa, isFA := st.Addr.(*ssa.FieldAddr)
-					if !isFA || !c05SentCLTVFields[an.FieldName(fa.X.Type(), fa.Field)] {
+					l := (&c05Env{w: w}).linearB(alt.v, sv.bind)
+					term, co := "", int64(0)
+					for k, v := range l.T {
+						term, co = k, v
+					}
+					isFinal := false
+					for _, ft := range c05FinalCLTVTerms {
+						if strings.Contains(term, ft) {
+							isFinal = true
+						}
+					}
+					if len(l.T) != 1 || co != 1 || !isFinal {
+						c.Unknown("C05.R1", cons, w.Pos(sv.pos), "on the unlimited path "+sv.field+" is "+l.String()+", not invoiceFinalCLTV + constant: unsupported shape")
+						ok = false
 						continue
 					}
-					for _, alt := range c05Alternatives(w, st.Val, st.Block(), pT) {
-						if !alt.unlimited {
-							continue
-						}
-						l := (&c05Env{w: w}).linear(alt.v)
-						term, co := "", int64(0)
-						for k, v := range l.T {
-							term, co = k, v
-						}
-						isFinal := false
-						for _, ft := range c05FinalCLTVTerms {
-							if strings.Contains(term, ft) {
-								isFinal = true
-							}
-						}
-						if len(l.T) != 1 || co != 1 || !isFinal {
-							c.Unknown("C05.R1", cons, w.Pos(st.Pos()), "on the unlimited path "+an.FieldName(fa.X.Type(), fa.Field)+" is "+l.String()+", not invoiceFinalCLTV + constant: unsupported shape")
-							ok = false
-							continue
-						}
-						have = true
-						if l.C > best {
-							best = l.C
-						}
-						c.OK("C05.R1", cons, w.Pos(st.Pos()), fmt.Sprintf("with limit == 0, %s.%s = final CLTV %+d", w.FuncName(x.fn), an.FieldName(fa.X.Type(), fa.Field), l.C))
+					have = true
+					if l.C > best {
+						best = l.C
 					}
+					c.OK("C05.R1", cons, w.Pos(sv.pos), fmt.Sprintf("with limit == 0, %s: %s = final CLTV %+d", w.FuncName(x.fn), sv.field, l.C))
 				}
 			}
 		}
@@ -1047,6 +1556,66 @@ func c05RouteDelays(c *an.Check) (map[string]int64, bool) {
 		out[backend] = best
 	}
 	return out, ok
+}
+
+// c05Sent is a value that ends up in one of the CLTV-carrying fields of the
+// outgoing route/request: v is the value as seen in the function examined (at
+// block at), possibly handed to an in-module helper that performs the store
+// (bind then maps the helper's parameters to the arguments).
+type c05Sent struct {
+	v     ssa.Value
+	at    *ssa.BasicBlock
+	pos   token.Pos
+	field string
+	bind  c05Bind
+}
+
+func c05SentValues(w *an.World, fn *ssa.Function, skip map[*ssa.Function]bool, depth int) []c05Sent {
+	var out []c05Sent
+	for _, blk := range fn.Blocks {
+		for _, in := range blk.Instrs {
+			switch x := in.(type) {
+			case *ssa.Store:
+				fa, isFA := x.Addr.(*ssa.FieldAddr)
+				if !isFA || !c05SentCLTVFields[an.FieldName(fa.X.Type(), fa.Field)] {
+					continue
+				}
+				out = append(out, c05Sent{v: x.Val, at: x.Block(), pos: x.Pos(), field: an.FieldName(fa.X.Type(), fa.Field)})
+			case *ssa.Call:
+				g := x.Call.StaticCallee()
+				if g == nil || x.Call.IsInvoke() || depth >= 2 || g == fn || skip[g] || !w.InModule(g) || g.Blocks == nil || len(g.Params) != len(x.Call.Args) {
+					continue
+				}
+				for _, sv := range c05SentValues(w, g, skip, depth+1) {
+					// only values that depend on what the caller passes in
+					nb := c05Bind{}
+					for k, v := range sv.bind {
+						nb[k] = v
+					}
+					for i, p := range g.Params {
+						nb[p] = x.Call.Args[i]
+					}
+					v := sv.v
+					for {
+						if cv, ok := v.(*ssa.Convert); ok {
+							v = cv.X
+							continue
+						}
+						break
+					}
+					if p, isParam := v.(*ssa.Parameter); isParam {
+						out = append(out, c05Sent{v: nb.resolve(p), at: x.Block(), pos: x.Pos(), field: sv.field + " (stored by " + w.FuncName(g) + ")", bind: nb})
+						continue
+					}
+					if _, isConst := v.(*ssa.Const); isConst {
+						continue // a fixed delay of some other payment (e.g. a probe)
+					}
+					out = append(out, c05Sent{v: sv.v, at: x.Block(), pos: x.Pos(), field: sv.field + " (stored by " + w.FuncName(g) + ")", bind: nb})
+				}
+			}
+		}
+	}
+	return out
 }
 
 type c05Alt struct {
